@@ -449,6 +449,29 @@ pub struct MapVec {
     pub m: HashMap<String, Vec<i32>>,
 }
 
+/// An enumeration whose variants use the attribute and header positions.
+#[derive(Form, Debug, Clone, PartialEq)]
+pub enum Ev2 {
+    A {
+        #[form(header)]
+        h: i32,
+        v: Vec<i32>,
+    },
+    B {
+        #[form(attr)]
+        v: Vec<i32>,
+        n: i32,
+    },
+    #[form(tag = "cee")]
+    C {
+        #[form(header_body)]
+        n: i32,
+        #[form(attr)]
+        m: HashMap<String, i32>,
+    },
+    D(Option<i32>),
+}
+
 #[derive(Form, Debug, Clone, PartialEq)]
 pub struct HdrBodyVec {
     #[form(header_body)]
@@ -535,6 +558,8 @@ pub enum TV {
     BodyField { h: i32, b: Vec<i32> },
     OptStruct { o: Option<(i32, String, Option<i64>)>, n: i32 },
     MapVec { m: BTreeMap<String, Vec<i32>> },
+    /// `Ev2`: `kind` 0..=3 selects the variant; unused fields are ignored.
+    Ev2 { kind: u8, n: i32, v: Vec<i32>, m: BTreeMap<String, i32>, o: Option<i32> },
     /// `swimos_model::Timestamp`, microseconds since the epoch (not negative).
     Timestamp(u64),
 }
@@ -630,6 +655,7 @@ impl TV {
             TV::BodyField { .. } => "struct_body_field",
             TV::OptStruct { .. } => "struct_opt_struct",
             TV::MapVec { .. } => "struct_map_vec",
+            TV::Ev2 { .. } => "enum_ev2",
         }
     }
 
@@ -645,7 +671,11 @@ impl TV {
         vis.note_infinite_float(infinite);
         vis.note_lone_absent_item(matches!(self, TV::VecOptI32(v) if v.len() == 1 && v[0].is_none()));
         vis.note_attr_single_slot(matches!(self, TV::AttrOne { .. }));
-        vis.note_empty_attr_vec(matches!(self, TV::AttrRows { rows, .. } if rows.is_empty()) || matches!(self, TV::AttrMap { m, .. } if m.is_empty()));
+        vis.note_empty_attr_vec(
+            matches!(self, TV::AttrRows { rows, .. } if rows.is_empty())
+                || matches!(self, TV::AttrMap { m, .. } if m.is_empty())
+                || matches!(self, TV::Ev2 { kind, m, .. } if kind % 4 == 2 && m.is_empty()),
+        );
         match self {
             TV::Unit => vis.visit(name, (), eq_std),
             TV::I32(n) => vis.visit(name, *n, eq_std),
@@ -694,6 +724,15 @@ impl TV {
             TV::AttrTuple { a, b, n } => vis.visit(name, AttrTuple { t: (*a, b.clone()), n: *n }, eq_std),
             TV::BodyField { h, b } => vis.visit(name, BodyField { h: *h, b: b.clone() }, eq_std),
             TV::OptStruct { o, n } => vis.visit(name, OptStruct { o: o.as_ref().map(|(a, b, c)| Plain { a: *a, b: b.clone(), c: *c }), n: *n }, eq_std),
+            TV::Ev2 { kind, n, v, m, o } => {
+                let e = match kind % 4 {
+                    0 => Ev2::A { h: *n, v: v.clone() },
+                    1 => Ev2::B { v: v.clone(), n: *n },
+                    2 => Ev2::C { n: *n, m: m.iter().map(|(k, x)| (k.clone(), *x)).collect() },
+                    _ => Ev2::D(*o),
+                };
+                vis.visit(name, e, eq_std)
+            }
             TV::MapVec { m } => vis.visit(name, MapVec { m: m.iter().map(|(k, v)| (k.clone(), v.clone())).collect() }, eq_std),
         }
     }
@@ -1004,6 +1043,11 @@ impl TV {
                 if o.is_some() {
                     out.push(TV::OptStruct { o: None, n: *n });
                     out.push(TV::OptStruct { o: Some((0, String::new(), None)), n: 0 });
+                }
+            }
+            TV::Ev2 { kind, n, v, m, o } => {
+                if *n != 0 || !v.is_empty() || !m.is_empty() || matches!(o, Some(x) if *x != 0) {
+                    out.push(TV::Ev2 { kind: *kind, n: 0, v: if v.is_empty() { vec![] } else { v[1..].to_vec() }, m: BTreeMap::new(), o: o.map(|_| 0) });
                 }
             }
             TV::MapVec { m } => {
